@@ -311,6 +311,18 @@ func record(c Case) {
 		cls = append(cls, "several-commands-of-0.6-timeout")
 		nt = true
 	}
+	for _, l := range [][]Cmd{c.Before, c.After} {
+		parts = 0
+		for _, cm := range l {
+			if cm.Kind == "part" {
+				parts++
+			}
+		}
+		if parts >= 2 {
+			cls = append(cls, "several-hook-commands-of-0.6-timeout")
+			nt = true
+		}
+	}
 	drv.Eval(cls...)
 	if nt {
 		drv.NonTrivial(c.canon())
@@ -336,9 +348,9 @@ func TestRandom(t *testing.T) {
 	rapid.Check(t, func(rt *rapid.T) {
 		c := Case{TimeoutMs: rapid.IntRange(2, 10).Draw(rt, "timeout") * 100, Allow: rapid.Bool().Draw(rt, "allow")}
 		where := rapid.IntRange(0, 5).Draw(rt, "where") // where over-runners are allowed
-		c.Before = genCmds(rt, "b", 0, 1, where == 0)
+		c.Before = genCmds(rt, "b", 0, 3, where == 0)
 		c.Cmds = genCmds(rt, "c", 1, 4, where >= 2)
-		c.After = genCmds(rt, "a", 0, 2, where == 1)
+		c.After = genCmds(rt, "a", 0, 3, where == 1)
 		if rapid.IntRange(0, 2).Draw(rt, "with-variations") == 0 {
 			c.NVar = rapid.IntRange(2, 3).Draw(rt, "nvar")
 			c.OverAt = rapid.IntRange(0, c.NVar-1).Draw(rt, "over-at")
@@ -386,6 +398,15 @@ func TestMatrix(t *testing.T) {
 			c.Cmds = append(c.Cmds, Cmd{"part"})
 		}
 		cases = append(cases, c)
+	}
+	// each hook command gets the full timeout as well
+	for n := 2; n <= 3; n++ {
+		b, a := Case{TimeoutMs: 500, Cmds: []Cmd{{"part"}}}, Case{TimeoutMs: 500, Cmds: []Cmd{{"part"}}}
+		for i := 0; i < n; i++ {
+			b.Before = append(b.Before, Cmd{"part"})
+			a.After = append(a.After, Cmd{"part"})
+		}
+		cases = append(cases, b, a)
 	}
 	cases = append(cases, Case{TimeoutMs: 100, Cmds: []Cmd{{"instant"}, {"instant"}, {"instant"}}})
 	for i, c := range cases {
